@@ -111,7 +111,7 @@ def run_c17(ctx):
             ctx.stages.append({"stage": "mc-Racy", "kind": "negative test: racy design rejected by TLC", "wall_s": r["wall_s"]})
             ctx.log("mc-Racy: racy design rejected by TLC as expected")
     # real threads
-    rounds = ctx.q([(rel, 8, 4000), (dev, 8, 3000), (rel, 16, 2000), (rel, 2, 8000)],
+    rounds = ctx.q([(rel, 8, 4000), (dev, 8, 3000), (rel, 16, 2000), (rel, 2, 8000), (rel, 12, 3000), (dev, 4, 4000), (rel, 8, 6000), (rel, 3, 8000)],
                    [(rel, 8, 20000), (dev, 8, 10000), (rel, 16, 10000), (rel, 2, 40000), (rel, 12, 15000), (dev, 16, 5000), (rel, 4, 30000), (rel, 16, 15000)])
     if ctx.thorough:
         # the same eight configurations five times over with other seeds: schedules are sampled, more samples = more schedules
